@@ -62,13 +62,14 @@ func (e *ATExecutor) ExecWithNamedValue(ctx context.Context, execCtx *types.Exec
 	} else {
 		switch queryParser.SQLType {
 		case types.SQLTypeInsert:
-			if stmt := queryParser.InsertStmt; stmt != nil && (stmt.IgnoreErr || stmt.IsReplace) && insertGivesItsKeys(ctx, queryParser, execCtx) {
+			if stmt := queryParser.InsertStmt; stmt != nil && (stmt.IgnoreErr || stmt.IsReplace) && insertGivesUniqueValues(ctx, queryParser, execCtx) {
 				// a row of the statement may meet an existing row: REPLACE replaces it, INSERT IGNORE leaves
 				// it alone. The images must tell the rows the statement inserted from the rows that were
 				// there before, as for INSERT ... ON DUPLICATE KEY UPDATE; the plain insert executor takes
 				// every row of the statement for inserted, and its undo deletes rows that existed before.
-				// (A statement that leaves its key to the database cannot meet an existing row by that key, and only
-				// the plain executor knows how to learn generated keys: it stays there.)
+				// (A statement none of whose rows gives the value of a unique index - its key is left to the database
+				// and there is no other unique value - cannot meet an existing row, and only the plain executor knows
+				// how to learn generated keys: it stays there.)
 				executor = NewInsertOnUpdateExecutor(queryParser, execCtx, e.hooks)
 			} else {
 				executor = NewInsertExecutor(queryParser, execCtx, e.hooks)
